@@ -86,6 +86,20 @@ def _call_sites():
                 p = d.transform((x, y), (1.0, 1.0, 1.0))
                 return repr([round(float(v), 9) for v in p])
             sites.append(("TransformDict.transform(%s,%s)" % (a.value, c.value), obs(lambda: td(a.value, c.value)), obs(lambda: td(a, c))))
+            # FrameID.from_value ignores letter case, so every case variant of a frame name is a string spelling of the member; inverse
+            # direction and item access as well
+            for variant, f in (("upper", str.upper), ("lower", str.lower)):
+                sites.append(("TransformKey(%s,%s):%s" % (a.value, c.value, variant), obs(lambda: tk(f(a.value), f(c.value))), obs(lambda: tk(a, c))))
+                sites.append(("HomogeneousMatrix(%s,%s):%s" % (a.value, c.value, variant), obs(lambda: hm(f(a.value), f(c.value))), obs(lambda: hm(a, c))))
+                sites.append(("TransformDict.transform(%s,%s):%s" % (a.value, c.value, variant), obs(lambda: td(f(a.value), f(c.value))), obs(lambda: td(a, c))))
+                sites.append(("TransformDict.transform(%s,%s):inverse:%s" % (a.value, c.value, variant), obs(lambda: td(f(c.value), f(a.value))), obs(lambda: td(c, a))))
+
+            def item(x, y):
+                m = HomogeneousMatrix((1.0, 2.0, 3.0), Quaternion(), src=a, dst=c)
+                d = TransformDict(m)
+                return repr(((x, y) in d if hasattr(d, "__contains__") else None, d[(x, y)].position.tolist(), d.get((x, y)).position.tolist()))
+            for variant, f in (("value", str), ("upper", str.upper)):
+                sites.append(("TransformDict[](%s,%s):%s" % (a.value, c.value, variant), obs(lambda: item(f(a.value), f(c.value))), obs(lambda: item(a, c))))
     for t in EvaluationTask:
         for prefix in ("autoware", "traffic_light"):
             def lc(arg):
